@@ -25,8 +25,16 @@ pub fn spaces_c03(tier: &str, _seed: u64) -> Vec<Box<dyn Space>> {
             v.push(Box::new(super::c08::Hist { depth, base, equil: true, presolve_active: false }));
         }
     }
+    // terminal statuses that need an injected fault (NumericalError, roll-backs, strategy switches)
+    let (k, d) = if tier == "thorough" { (6, 3) } else { (4, 2) };
+    v.push(Box::new(super::faults::Schedules::new(k, d, super::faults::FJudge::C03)));
     v
 }
 pub fn spaces_c04(tier: &str, _seed: u64) -> Vec<Box<dyn Space>> {
-    sweep_spaces(Judge::C04, tier)
+    let mut v = sweep_spaces(Judge::C04, tier);
+    let thorough = tier == "thorough";
+    let (k, d) = if thorough { (6, 3) } else { (4, 2) };
+    v.push(Box::new(super::faults::Schedules::new(k, d, super::faults::FJudge::C04)));
+    v.push(Box::new(super::faults::ClockJumps { kmax: if thorough { 12 } else { 6 } }));
+    v
 }
